@@ -76,6 +76,20 @@ pub fn ratio_for_liquidation(i: &RatioIn) -> SInt {
     }
 }
 
+/// free collateral of a position whose funding is settled: min(margin, margin + PnL) less the
+/// initial-margin requirement (open notional x initial ratio for a long, current position value x
+/// initial ratio for a short), PnL being whichever of spot and TWAP PnL is smaller in magnitude
+pub fn free_collateral(p: &Position, out_spot: Uint128, out_twap: Uint128, init_ratio: Uint128, d: u128) -> SInt {
+    let ps = pnl(p, out_spot);
+    let pt = pnl(p, out_twap);
+    let use_twap = ps.abs().gt(pt.abs());
+    let pn = SInt::ite(use_twap.clone(), pt, ps);
+    let value = SInt::ite(use_twap, s(out_twap), s(out_spot));
+    let min_coll = SInt::ite(pn.gt(SInt::zero()), s(p.margin), s(p.margin).add(pn));
+    let req = if is_long(p) { s(p.notional).mul(s(init_ratio)).div_e(c(d)) } else { value.mul(s(init_ratio)).div_e(c(d)) };
+    min_coll.sub(req)
+}
+
 pub fn ge0(x: SInt) -> Cond {
     x.ge(SInt::zero())
 }
